@@ -161,13 +161,13 @@ PROPS['C14'] = dict(
 PROPS['C11'] = dict(
     title='Printed statistics and listings describe the printed matching',
     functions=[MOD + f for f in ('_get_max_rank', '_get_cost', '_get_cost_sq', '_get_degree', '_get_profile', '_get_lec_abs_diffs', '_get_max_lec_abs_diff',
-                                 '_get_sum_lec_abs_diff', '_get_matching_string', '_get_matching_size', '_get_pair_assignments', 'get_results', '_get_detailed_student_info', '_get_profile_string')],
+                                 '_get_sum_lec_abs_diff', '_get_matching_string', '_get_matching_size', '_get_pair_assignments', 'get_results', '_get_detailed_student_info', '_get_detailed_project_info', '_get_detailed_lecturer_info', '_get_profile_string')],
     lemmas=['SUM/ext', 'LISTSET/empty-append', 'LISTSET/iterate'], level='other',
     level_text='statistic helpers verified against the measures of the property statement for every list of matched pairs (sums, counts per rank / lecturer, maxima with witnesses; lecturer cost 0 when a pair has no lecturer rank); the matching line has one blank-separated entry per student = project of that student\'s matched pair or 0; Model.get_results prints size / cost / degree equal to the helper results for the list read back from the solution, in both formats.  NOT proved deductively (bounded stand-in): the exact text layout of the profile string and of the three long-format listings (_get_profile_string and _get_detailed_* are modelled as pure text functions)',
     harness=True, bound='<= 4 students x <= 3 projects x <= 3 lecturers, 0-2 criteria, short and long format',
     budget={'quick': 20, 'thorough': 300},
     trusted=['T3 reported values are integral', 'T5/T6 str(int) name model'],
-    assumptions=['long format: the per-student listing is verified (one line per student in student order, showing the student, project and lecturer numbers of that student\'s matched pair, or "no assignment"; lines are strings of a fixed template with integer holes, T5); the profile line is verified as "<", one number per rank in rank order, ">" (callers print that function\'s result: composition by function identity); the per-project and per-lecturer listings: bounded stand-in only'])
+    assumptions=['long format: all three listings are verified for every list of matched pairs: one line per student / project / lecturer in order; a student line shows the student, project and lecturer numbers of that student\'s matched pair or "no assignment"; a project line names the project and its lecturer, then exactly one token s_<student> per pair assigned to that project (each assignee appears, nothing else does) or "no assignment", then occupancy = the number of such pairs and the upper quota; a lecturer line likewise with s_<student> (p_<project>) token pairs, occupancy, upper quota and target; the profile line is "<", one number per rank in rank order, ">" (callers print that function\'s result: composition by function identity)', 'listing view of a text (pyvc/models_text.py): blank-separated tokens of the shapes prefix + number + suffix; "3/5" is seen as the two numbers 3, 5; exact spacing and the order of the assignees within a line are outside the contract (bounded stand-in)'])
 PROPS['C10'] = dict(
     title='The solver reads an instance file as the instance the file denotes',
     functions=[FIO + '_get_simple_pref_list_and_ranks', FIO + '_create_pairs_row', FIO + '_create_student_ranks', FIO + '_set_lecturers', FIO + '_set_lecturer_ranks',
@@ -192,7 +192,7 @@ PROPS['C08'] = dict(
 GETTER_HELPERS = ['_get_max_rank', '_get_cost', '_get_cost_sq', '_get_degree', '_get_profile', '_get_lec_abs_diffs', '_get_max_lec_abs_diff', '_get_sum_lec_abs_diff',
                   '_get_matching_string', '_get_matching_size', '_get_pair_assignments', '_get_pair_assignments_with_none', 'get_results', 'get_debug', '_pairs_string',
                   'check_stability', 'get_num_assignments_projects', 'get_num_assignments_lecturers', 'get_worst_rank_projects', 'get_worst_rank_lecturers',
-                  '_get_detailed_student_info', '_get_profile_string']
+                  '_get_detailed_student_info', '_get_detailed_project_info', '_get_detailed_lecturer_info', '_get_profile_string']
 PROPS['C18'] = dict(
     title='Result getters are read-only and re-solving is reproducible',
     functions=[(MOD + f, {'force_pure': True}) for f in GETTER_HELPERS] + [(BF + 'get_results', {'force_pure': True})] + [('solver:Solver.' + f, {'force_pure': True}) for f in ('get_results_short', 'get_results_long', 'get_debug')]
